@@ -4,6 +4,9 @@
 
 use std::cell::RefCell;
 use std::collections::HashMap;
+use std::future::Future;
+use std::pin::Pin;
+use std::task::{Context, Poll};
 
 use tokio::io::{AsyncRead, AsyncWrite};
 
@@ -29,4 +32,40 @@ pub(crate) fn observe_maps<R, S>(resultmap: &HashMap<i32, R>, searchmap: &HashMa
 /// driver running on this thread.
 pub fn routing_maps() -> (Vec<i32>, Vec<i32>) {
     MAPS.with(|m| m.borrow().clone())
+}
+
+type YieldDecider = Box<dyn FnMut() -> bool>;
+
+thread_local! {
+    static YIELD: RefCell<Option<YieldDecider>> = const { RefCell::new(None) };
+}
+
+/// Install (or remove) the decision function consulted at the cooperative yield
+/// point between message ID allocation and request enqueueing.
+pub fn set_yield_decider(f: Option<YieldDecider>) {
+    YIELD.with(|y| *y.borrow_mut() = f);
+}
+
+struct YieldOnce(bool);
+
+impl Future for YieldOnce {
+    type Output = ();
+
+    fn poll(mut self: Pin<&mut Self>, cx: &mut Context<'_>) -> Poll<()> {
+        if self.0 {
+            return Poll::Ready(());
+        }
+        self.0 = true;
+        cx.waker().wake_by_ref();
+        Poll::Pending
+    }
+}
+
+/// Cooperative yield point: stands in for a thread preemption between the allocation
+/// of a message ID and the hand-over of the request to the connection driver.
+pub(crate) async fn sched_point() {
+    let do_yield = YIELD.with(|y| y.borrow_mut().as_mut().map(|f| f()).unwrap_or(false));
+    if do_yield {
+        YieldOnce(false).await;
+    }
 }
